@@ -57,6 +57,8 @@
 #include "upipe/ubuf.h"
 #include "upipe/ubuf_block.h"
 #include "upipe/ubuf_block_mem.h"
+#include "upipe/ubuf_mem.h"
+#include "upipe/uref_sound_flow.h"
 #include <stdlib.h>
 #include <stdio.h>
 #include <inttypes.h>
@@ -114,6 +116,13 @@ enum { CL_REPL_DIFF, CL_REPL_SAME, CL_DEL_NOTLAST, CL_DEL_ABSENT, CL_GREW, CL_AL
        CL_SETVA, CL_SETDEFVA, CL_PRIV, CL_BOOLVA, CL_FORK, CL_SIBLING, CL_SIBLING_CONTROL, CL_ATTACH, CL_DETACH, CL_NCLASSES };
 /* (all 64 class bits are taken: the C01 twin reports refused allocations in the place of a class it has no use for) */
 #define CL_FAULT CL_IMPORT_NULL_SRC
+#define CL_MGR_FROM_DEF CL_CMP_FLOAT_LT1
+#ifdef UREFATTR_AS_C01
+#define CLS_C10(x) do { } while (0)
+#else
+#define CLS_C10(x) CLS(x)
+#endif
+#define CL_MGR_INCOMPLETE_DEF CL_CMP_DIFF_2_32
 static const char *const class_names[] = {
     "replace_var_different_size", "replace_var_same_size", "delete_not_last", "delete_absent_refused", "storage_grew",
     "alias_source", "shorthand_accessor", "printf_named_accessor", "named_with_shorthand_name", "prefix_names_same_type",
@@ -324,7 +333,7 @@ struct ctx {
     struct muref mu[MAXU];
     int used[MAXUSED]; int nused;
     unsigned pat; int ret; uint64_t hash; uint64_t cls;
-    const char *opname; char what[200];
+    const char *opname; char what[200]; int pool_depth;
     int touched, touched_key;
 };
 static uint8_t valbuf[8192];
@@ -467,7 +476,7 @@ static void attr_cmp_check(struct ctx *c, int k, int a, int b, bool classify)
         double x, y; memcpy(&x, ea->v, 8); memcpy(&y, eb->v, 8);
         if (isnan(x) || isnan(y)) return;              /* "identical" is not defined for NaN: not judged */
         want_zero = x == y;
-        if (classify && !want_zero && fabs(x - y) < 1.0) CLS(CL_CMP_FLOAT_LT1);
+        if (classify && !want_zero && fabs(x - y) < 1.0) CLS_C10(CL_CMP_FLOAT_LT1);
     } else want_zero = mv_eq(ea, eb);
     if (classify) {
         if (!ea->present && !eb->present) CLS(CL_CMP_BOTH_ABSENT);
@@ -475,7 +484,7 @@ static void attr_cmp_check(struct ctx *c, int k, int a, int b, bool classify)
         else if (want_zero) { if (a != b) CLS(CL_CMP_EQUAL); }
         else {
             CLS(CL_CMP_DIFFER);
-            if (accs[k].base == T_U || accs[k].base == T_I) { uint64_t x, y; memcpy(&x, ea->v, 8); memcpy(&y, eb->v, 8); if ((uint32_t)(x - y) == 0) CLS(CL_CMP_DIFF_2_32); }
+            if (accs[k].base == T_U || accs[k].base == T_I) { uint64_t x, y; memcpy(&x, ea->v, 8); memcpy(&y, eb->v, 8); if ((uint32_t)(x - y) == 0) CLS_C10(CL_CMP_DIFF_2_32); }
         }
     }
     int r = accs[k].cmp(c->mu[a].u, c->mu[b].u);
@@ -1275,6 +1284,39 @@ static void op_fork(struct ctx *c)
     CLS(CL_FORK); CLS(CL_DUP);
 }
 
+#ifdef UREFATTR_AS_C01
+/* a buffer manager asked for with a flow definition (ubuf_mem_mgr_alloc_from_flow_def, what the probes that answer ubuf manager
+ * requests do): block, picture or sound; complete, or announcing more planes than it describes -- then there is no manager, and nothing
+ * stays allocated (audit at the end of the case) */
+static void op_mgr_from_flow_def(struct ctx *c)
+{
+    c->opname = "mgr_from_flow_def";
+    uint8_t sel = tp_u8(&c->t);
+    int kind = sel % 3, described = 1 + (sel >> 2) % 3, announced = described + ((sel & 0x40) ? 1 + (sel >> 7) : 0);
+    c->hash = vp_hash_mix(c->hash, 0x3f00 | sel);
+    struct uref *fd = NULL;
+    bool ok = true;
+    static const char *const chroma[] = { "y8", "u8", "v8" }, *const chan[] = { "l", "r", "c" };
+    if (kind == 0) { fd = uref_block_flow_alloc_def(c->umgr, "x."); announced = described = 0; }
+    else if (kind == 1) {
+        fd = uref_pic_flow_alloc_def(c->umgr, 1);
+        for (int p = 0; fd && p < described; p++) ok = ok && ubase_check(uref_pic_flow_add_plane(fd, p ? 2 : 1, p ? 2 : 1, 1, chroma[p]));
+        if (fd && announced != described) ok = ok && ubase_check(uref_pic_flow_set_planes(fd, announced));
+    } else {
+        fd = uref_sound_flow_alloc_def(c->umgr, "s16.", described, 2);
+        for (int p = 0; fd && p < described; p++) ok = ok && ubase_check(uref_sound_flow_add_plane(fd, chan[p]));
+        if (fd && announced != described) ok = ok && ubase_check(uref_sound_flow_set_planes(fd, announced));
+    }
+    if (!fd || !ok) { if (fd) uref_free(fd); if (REFUSED()) return; c->ret = vp_internal(c->rep, "flow definition for a buffer manager"); return; }
+    struct ubuf_mgr *mgr = ubuf_mem_mgr_alloc_from_flow_def(c->pool_depth, c->pool_depth, c->umem, fd);
+    snprintf(c->what, sizeof c->what, "ubuf_mem_mgr_alloc_from_flow_def(%s, %d plane(s) described, %d announced) -> %s", kind == 0 ? "block" : kind == 1 ? "pic" : "sound", described, announced, mgr ? "manager" : "NULL");
+    R("  %s\n", c->what);
+    uref_free(fd);
+    if (announced != described) CLS(CL_MGR_INCOMPLETE_DEF); else CLS(CL_MGR_FROM_DEF);
+    if (mgr != NULL) ubuf_mgr_release(mgr);
+}
+#endif
+
 static void op_ubuf(struct ctx *c)
 {
     c->opname = "ubuf";
@@ -1331,6 +1373,7 @@ static int run(const uint8_t *tp_, size_t len, struct vp_report *rep, unsigned f
     if (!c->umgr || !c->bmgr) return vp_internal(rep, "manager allocation");
     R("C10 uref attributes: pool_depth=%d udict min_size=%d extra_size=%d control_attr_size=%d\n", depth, minsz, extra, ctlsz);
     if (depth) CLS(CL_POOL);
+    c->pool_depth = depth;
 #ifdef UREFATTR_AS_C01
     bool faultmode = cfg >= 96; unsigned nfaults = 0; g_model_stale = false;      /* (cfg 72..255 alias other configurations) */
     if (faultmode) R("  [allocation faults]\n");
@@ -1358,6 +1401,9 @@ static int run(const uint8_t *tp_, size_t len, struct vp_report *rep, unsigned f
             else if (sub <= 49) op_set_va(c);
             else if (sub <= 55) op_member(c);
             else if (sub <= 59) op_fork(c);
+#ifdef UREFATTR_AS_C01
+            else if (sub == 63) op_mgr_from_flow_def(c);
+#endif
             else op_ubuf(c);
         }
         else if (op <= 11) op_set(c);
@@ -1426,6 +1472,8 @@ static const char *const *names_c01(void)
 {
     for (int i = 0; i <= CL_NCLASSES; i++) class_names_c01[i] = class_names[i];
     class_names_c01[CL_FAULT] = "allocation_refused_inside_operation";
+    class_names_c01[CL_MGR_FROM_DEF] = "buffer_manager_from_complete_flow_def";
+    class_names_c01[CL_MGR_INCOMPLETE_DEF] = "buffer_manager_from_flow_def_announcing_more_planes_than_described";
     return class_names_c01;
 }
 __attribute__((constructor)) static void names_init(void) { names_c01(); }
